@@ -175,6 +175,11 @@ func makePlan(fname string, v vector) *plan {
 		if abstract == "" {
 			return ""
 		}
+		if v.Names == "numeral" && abstract == "v" {
+			// instruction results: numerals that differ as integers -- the parser keys instruction
+			// names by Name(), which normalises "00" and "000" to the same key (C11 known finding)
+			return strconv.Itoa(50 + idx)
+		}
 		if v.Names == "numeral" && abstract != "t" {
 			return numeralName(idx)
 		}
